@@ -206,10 +206,34 @@ def fmt_row(r):
     return "(" + ", ".join(f(x) for x in r) + ")"
 
 
+def check_cents(io):
+    """the default rendering shows the same tables rounded to cents (half away
+    from zero): every money cell of the cents tables is the rounded full value"""
+    import decimal
+    full, cents = io["full"], io.get("cents") or {}
+    if cents.get("status") == "panic" or "err" in cents:
+        return ("default (cents) rendering", "tables", cents.get("panic") or cents.get("err"))
+    for name, k in (("total", 2), ("yearly", 3)):
+        a, b = full[name], cents[name]
+        if a["header"] != b["header"] or len(a["rows"]) != len(b["rows"]) or a["notes"] != b["notes"]:
+            return ("shape of the %s table rounded to cents" % name, a["header"], b["header"])
+        for ra, rb in zip(a["rows"], b["rows"]):
+            if ra[:k - 1] != rb[:k - 1]:
+                return ("row labels of the %s table rounded to cents" % name, ra[:k - 1], rb[:k - 1])
+            for x, y in zip(ra[k - 1:], rb[k - 1:]):
+                want = "$" + str(decimal.Decimal(x[1:]).quantize(decimal.Decimal("0.01"), rounding=decimal.ROUND_HALF_UP))
+                if y != want:
+                    return ("figure rounded to cents in the %s table (%s)" % (name, " ".join(ra[:k - 1])), want, y)
+    return None
+
+
 def check_property(o):
     """the property itself, on the implementation's tables against the L0
     oracle; -> None or (what, expected, actual)"""
     i, orc = o["impl"], o["oracle"]
+    c = check_cents(o["impl_raw"])
+    if c:
+        return c
     secn = {v: k for k, v in o["st"].items()}
     if i["secs"] != orc["secs"] or i["ysecs"] != orc["secs"]:
         return ("security columns", [secn[s] for s in orc["secs"]], [secn[s] for s in i["secs"]])
